@@ -79,6 +79,55 @@ def tasks_fidelity(ctx):
     return [(H.Opts(sp, loop="real", vis=(0, INF), fail=99), 0, 1) for sp in (FIDELITY if ctx.thorough else FIDELITY[:2])]
 
 
+# two-submission histories: a first submission has filled the cache root; the SECOND one is scripted and checked
+TWO_SMALL = ["chain2", "chain3", "fanout", "fanin", "diamond", "one+chain2", "split2>b", "split2!>b", "a>split2", "chain2+chain2"]
+TWO_MEDIUM = ["one+chain3", "fanin3", "a>split2>c", "split2+chain2", "diamond+one", "split2+plain>c", "chain4", "split3>b"]
+TWO_SAMPLED = ["split2>diamond", "split2,split2>c", "chain3+b>split3", "2x chain4 + split2", "chain6"]
+MODES = [(True, True), (False, True), (True, False), (False, False)]  # (rerun, propagate_rerun)
+
+
+def tasks_two_sync(ctx):
+    t = []
+    for sp in TWO_SMALL + TWO_MEDIUM + TWO_SAMPLED:
+        for prior in ("all", "partial"):
+            for rerun, prop in MODES:
+                t.append((H.Opts(sp, variant="sync", loop="real", prior=prior, rerun=rerun, propagate=prop, genmark=True), 0, 0))
+    for sp in FIDELITY[:2]:  # the same with real job runs (the body reads the generation from the environment)
+        for rerun in (True, False):
+            t.append((H.Opts(sp, variant="sync", loop="real", realise="run", prior="all", rerun=rerun, genmark=True), 0, 0))
+    return t
+
+
+def tasks_two_async(ctx, stale_window):
+    """stale_window=False: every job handed to the worker has started (holds its lock, has cleared its old
+    directory) by the next observation; True: some / all of them are still waiting to start at later observations"""
+    t = []
+    for sp in TWO_SMALL + (TWO_MEDIUM if ctx.thorough else []):
+        for prior in ("all", "partial"):
+            for rerun, prop in MODES:
+                if stale_window:
+                    if rerun and prop:
+                        for vis in ((INF,), (0, INF)) if (ctx.thorough or sp in TWO_SMALL[:6]) else ((INF,),):
+                            t.append((H.Opts(sp, loop="real", vis=vis, prior=prior, rerun=rerun, propagate=prop, genmark=True), 0, 1))
+                else:
+                    t.append((H.Opts(sp, loop="real", vis=(0,), prior=prior, rerun=rerun, propagate=prop, genmark=True), 0, 1))
+                    if not (rerun and prop):  # without an effective rerun nothing is re-executed: no stale window
+                        t.append((H.Opts(sp, loop="real", vis=(0, INF), prior=prior, rerun=rerun, propagate=prop, genmark=True), 0, 1))
+                    if ctx.thorough and sp in TWO_SMALL:
+                        t.append((H.Opts(sp, loop="real", vis=(0,), multi=True, prior=prior, rerun=rerun, propagate=prop, genmark=True), 0, 1))
+    return t
+
+
+def tasks_two_sampled(ctx):
+    n = ctx.pick(6, 60)
+    t = []
+    for sp in TWO_SAMPLED:
+        for prior in ("all", "partial"):
+            for rerun, prop in MODES[:2] if not ctx.thorough else MODES:
+                t.append((H.Opts(sp, loop="real", vis=(0,), multi=True, prior=prior, rerun=rerun, propagate=prop, genmark=True), n, 0))
+    return t
+
+
 def deductive(ctx):
     """engine D: Job.done is True only for a stored, non-errored result; NodeExecution.get_runnable_tasks
     releases jobs only after every predecessor node is done and none is errored or unrunnable"""
@@ -99,6 +148,8 @@ def run(ctx):
         "lock-file visibility pattern is enumerated with the real lock/result files as observations. Checked per history: every job "
         "handed to the worker holds, in every slot fed by an upstream node, values produced by jobs of that node that had succeeded "
         "before (job-level reading); no job runs twice; without failures every job of every node runs and the loop ends. "
+        "The same is checked for a SECOND submission into a cache root filled by a first one (rerun x propagate_rerun, both loops): with an effective rerun every job "
+        "runs once and consumes only values of this submission, otherwise nothing stored runs again. "
         "Not covered: asyncio scheduling of a process pool, timing, observations that change in the middle of one get_runnable_tasks call."
     )
     try:
@@ -130,11 +181,50 @@ def run(ctx):
             rule="one case = one history; a difference between the two realisations is a CHECKER-ERROR",
             exhaustive=True,
         )
-        stats = H.run_domains(
-            ctx,
-            "C15",
-            [(d_async, tasks_async(ctx), False), (d_sync, tasks_sync(ctx), False), (d_smp, tasks_sampled(ctx), False), (d_fid, tasks_fidelity(ctx), True)],
+        two = TWO_SMALL + (TWO_MEDIUM if ctx.thorough else [])
+        d_two = ctx.domain(
+            "second submission over a warm cache: rerun x propagate_rerun, both loops (exhaustive)",
+            bound=(
+                "a first submission into the same cache root has completed every job (prior=all) or only the jobs of the first half of the nodes (prior=partial); the "
+                "checked history is the SECOND submission with rerun in {True, False} x propagate_rerun in {True, False}; task bodies of the second submission produce values "
+                f"that differ from the first one's. Sequential loop (real expand_workflow): {TWO_SMALL + TWO_MEDIUM + TWO_SAMPLED}, plus {FIDELITY[:2]} with real job runs. "
+                f"Asynchronous loop (real expand_workflow_async, scripted worker that like Job.run returns a stored result without executing unless the loop passes rerun=True): {two}, "
+                "every completion order, every job handed to the worker has started (holds its lock, has cleared its old directory) by the next observation"
+                + ("; several completions per observation for the small set" if ctx.thorough else "")
+            ),
+            rule="one case = one second-submission history; non-trivial = the workflow has >= 2 jobs. Contract: if rerun and propagate_rerun, every job is executed exactly once in this "
+            "submission and consumes only values produced in this submission by jobs that had finished successfully; otherwise no job with a stored result is executed, the "
+            "others are executed once and may consume stored values",
+            exhaustive=True,
         )
+        d_two_s = ctx.domain(
+            "second submission over a warm cache: larger workflows (sampled)",
+            bound=f"{TWO_SAMPLED}, asynchronous loop as above, {ctx.pick(6, 60)} random scripts per (workflow, prior, mode), several completions per observation, seed {ctx.seed}",
+            rule="one case = one random script, distinct by choice list",
+            exhaustive=False,
+        )
+        groups = [
+            (d_async, tasks_async(ctx), False),
+            (d_sync, tasks_sync(ctx), False),
+            (d_smp, tasks_sampled(ctx), False),
+            (d_fid, tasks_fidelity(ctx), True),
+            (d_two, tasks_two_sync(ctx) + tasks_two_async(ctx, stale_window=False), False),
+            (d_two_s, tasks_two_sampled(ctx), False),
+        ]
+        if ctx.is_known(H.STALE_WINDOW):
+            d_stale = ctx.domain(
+                "second submission with rerun=True: handed-out jobs that have not started yet (stale window)",
+                bound=f"{two}, asynchronous loop, rerun=True, propagate_rerun=True, prior in {{all, partial}}: the lock file of a job handed to the worker is never seen before its new result / per-job choice of seen-at-next-observation or never",
+                rule="one case = one second-submission history; same contract as above",
+                exhaustive=True,
+            )
+            groups.append((d_stale, tasks_two_async(ctx, stale_window=True), False))
+        else:
+            ctx.note(
+                f"NOT RUN: second-submission histories in which a job handed to the worker has not started by the next observation (its old result is still on disk). They fail on this "
+                f"tree (a consumer is started with the producer's value from the FIRST submission; class {H.STALE_WINDOW}) and are enumerated only once that class is listed as a known finding."
+            )
+        stats = H.run_domains(ctx, "C15", groups)
         tot = {}
         for st in stats:
             for k, v in st.items():
